@@ -160,14 +160,14 @@ class PresentValue(Harness):
     prop = 'C16'
     doc = 'PV satisfies the annuity equation pv(1+r)^n + pmt(1+r*type)((1+r)^n-1)/r + fv = 0 (linear form at r = 0) in exact real arithmetic'
     functions = ('financial.PV',)
-    bounds = 'periods n = 0..6 (thorough 0..8) with the power as repeated multiplication, and any real n in [0, 400] with the power (1+r)^n as ' \
+    bounds = 'periods n = 0..8 with the power as repeated multiplication, and any real n in [0, 400] with the power (1+r)^n as ' \
              'one uninterpreted positive value; type 0/1, rate any real > -1 (split: rate = 0 / rate != 0), payment and future value any reals; ' \
              'floating-point rounding is outside the claim (operations taken as exact reals; z3 non-linear real arithmetic)'
     outside = ('rounding error of the float evaluation', 'the value of (1+r)^n for non-integer n (C library)')
     solver_timeout_ms = {'quick': 60000, 'thorough': 120000}
 
     def cases(self, tier):
-        out = [{'n': n, 'type': t, 'zero': z} for n in range(0, 7 if tier == 'quick' else 9) for t in (0, 1) for z in (False, True)]
+        out = [{'n': n, 'type': t, 'zero': z} for n in range(0, 9) for t in (0, 1) for z in (False, True)]
         # any real number of periods (also non-integer): the power (1+r)^n is then one uninterpreted positive value
         out += [{'n': 'real', 'type': t, 'zero': z} for t in (0, 1) for z in (False, True)]
         return out
